@@ -48,6 +48,9 @@ def single_chars(t):
 
 
 def run(ctx, model):
+    from . import signatures as _sig
+    _n_sig = _sig.check(ctx, model, "R-SIGNATURE", lambda k: any(x in k for x in (':Numeral.', ':Word.', ':WordContains.', ':WordStartsWith.', ':WordEndsWith.')))
+    ctx.floor("R-SIGNATURE", _n_sig, 1, "public entry points")
     ctx.explanation = (
         "Numeral, Word, WordContains, WordStartsWith, WordEndsWith and __Word are walked by the abstract interpreter "
         "in meta mode (E6).  `base` is bounded by the guard 2..16 (its presence is checked by R-ARGS), so all 15 "
@@ -191,6 +194,10 @@ def run(ctx, model):
            [(cn, [aff, g, ext]) for cn in ("WordContains", "WordStartsWith", "WordEndsWith")
             for aff, g, ext in ((["ab", "c.d"], True, False), ("solo", False, False), (["x\\b"], True, False), (["\\B", "$", "^a"], False, False),
                                 (["x", "(y", "z|"], True, True), (["\\w", "a|b", "[c]"], True, False))]
+    # affixes handed over as instances of str subclasses (a str-valued enum member shows a label under str() / format())
+    from ..witness import SubStr, LabelStr
+    cfgs += [(cn, [aff, True, False]) for cn in ("WordContains", "WordStartsWith", "WordEndsWith")
+             for aff in (LabelStr("kb"), [LabelStr("ing")], SubStr("a.b"), [LabelStr("x.y"), "z"])]
     if ctx.tier == "thorough":
         cfgs += [("Numeral", [b]) for b in range(2, 17)] + [("Word", [1, 70])]
     ctx.parallel(cfgs, lambda c, cfg: e2e.compare(c, model, "R-E2E", *cfg), min_items=2)
